@@ -287,14 +287,44 @@ def _values_of(objs, pname):
 
 
 @st.composite
-def text_match(draw, candidates):
+def focused_text_filter(draw, objs):
+    """The plain 'search by text' query of a client: one comp-filter, one prop-filter, one text-match whose
+    needle comes from a value that exists in the collection (preferably one with escaped characters)."""
+    found = []
+    for o in objs:
+        try:
+            cal = icalref.parse_one(o, "VCALENDAR")
+        except icalref.ParseError:
+            continue
+        for c in cal.children:
+            for pn in ("SUMMARY", "DESCRIPTION", "LOCATION"):
+                for p in c.get(pn):
+                    v = filterref.prop_text(p)
+                    if v and "\n" not in v:
+                        found.append((c.name, pn, v))
+    if not found:
+        return None
+    special = [f for f in found if any(ch in f[2] for ch in "\\,;")]
+    comp, pn, v = draw(st.sampled_from(special if special and draw(st.integers(0, 3)) else found))
+    tm = draw(text_match([v], modes=["around-special", "around-special", "substring", "equal"]))
+    return {"name": "VCALENDAR", "comps": [{"name": comp, "props": [{"name": pn, "text_match": tm}]}]}
+
+
+@st.composite
+def text_match(draw, candidates, modes=None):
     cands = [c for c in candidates if c]
-    mode = draw(st.sampled_from(["equal", "substring", "substring", "case", "absent"]))
-    if not cands or mode == "absent":
+    mode = draw(st.sampled_from(modes or ["equal", "substring", "substring", "case", "absent", "around-special", "around-special"]))
+    special = [c for c in cands if any(ch in c for ch in "\\,;") and "\n" not in c]
+    if not cands or mode == "absent" or (mode == "around-special" and not special):
         text = draw(st.sampled_from(["zzz-nowhere", "qq", "Meeting"]))
     else:
-        v = draw(st.sampled_from(cands))
-        if mode == "equal":
+        v = draw(st.sampled_from(special if mode == "around-special" else cands))
+        if mode == "around-special":
+            # a needle that spans a character which is escaped in the file (backslash, comma, semicolon)
+            ks = [k for k, ch in enumerate(v) if ch in "\\,;"]
+            k = ks[draw(st.integers(0, len(ks) - 1))]
+            text = v[max(0, k - draw(st.integers(0, 2))) : k + 1 + draw(st.integers(0, 3))]
+        elif mode == "equal":
             text = v
         elif mode == "case":
             text = v.swapcase()
@@ -372,6 +402,10 @@ def gen_case(draw):
     top["comps"] = [draw(comp_filter(objs)) for _ in range(k)]
     if draw(st.integers(0, 5)) == 0:
         top["props"] = [draw(st.sampled_from([{"name": "VERSION"}, {"name": "CALSCALE"}, {"name": "CALSCALE", "is_not_defined": True}, {"name": "PRODID", "text_match": {"text": "xv", "collation": None, "negate": False}}]))]
+    if draw(st.integers(0, 4)) == 0:
+        ff = draw(focused_text_filter(objs))  # the plain search-by-text query, needle around an escaped character
+        if ff is not None:
+            top = ff
     warm = {"name": "VCALENDAR", "comps": [draw(comp_filter(objs))]}
     late = draw(st.sampled_from([0, 1, 1, 2]))
     return {"objects": [enc_body(o) for o in objs], "filter": top, "warm": warm, "late": late, "tz": draw(st.sampled_from(TZS)), "fe": draw(st.sampled_from(["wsgi", "aio"]))}
